@@ -91,7 +91,9 @@ def cases(tier, inst):
 def observe(fam, c, inst, caching):
     """-> list of observations (each a sorted list of (row, count) or an EXC tuple), all_selected flag"""
     if fam == "c12":
-        if c[0] == "zjoin":
+        if c[0] == "kjoin":
+            out, exp = c12.kjoin_make_and_eval_twice(c + (caching,), inst)
+        elif c[0] == "zjoin":
             out, exp = c12.join_make_and_eval_twice(c + (caching,), inst)
         else:
             out, exp = c12.make_and_eval_twice(c + (caching,), inst)
